@@ -65,3 +65,22 @@ def classify(e, w, h):
     if d is None:
         return None
     return (d, w, h, A_BY_PTR.get(e["ptr"], 0), 0)
+
+
+# what each driver enumerates (copied into the evidence; full statement in the header comments of the C sources)
+DOC = {
+    'misc_* pack/unpack/convert/memcpy/log2f':
+        'every width the callers can pass (multiples of 4 up to 260 / any 1..136) x heights x stride tuples from {w,w+1,w+16,2w} x all patterns / pattern pairs; svt_log2f: every x in 0..65535 (thorough 0..2^22) + powers of two; svt_memcpy: sizes 0..300 (+large) x dst/src offsets',
+    'misc_nxm_sad*, misc_sad16b, misc_variance_highbd':
+        'the 22 block sizes (nxm_sad: widths 8..64 x heights 4..32) x stride pairs x ref offset {0,1} x all pattern pairs',
+    'misc_sad_loop':
+        'HME block sizes of the three levels (w 2..64, h 1..64) x search area widths {1,3,7,8,9,15,16,24,32} x heights x strides (rotating) x pattern pairs + planted exact-match positions (first, last, just outside the area); best_sad and position compared',
+    'misc_ext_*':
+        '8x8/16x16/32x32/64x64 SAD aggregation kernels: stride pairs x sub_sad x all pattern pairs x 4 best-array states (max, 0, tie, tie+1); whole output records',
+    'misc_fft':
+        'N in {4,8,16,32} forward and inverse: integers 0..255, 0..1023, +-255, the caller pipeline (8/10-bit) x every pattern, impulse at every position, complete {min,max}^16 cube for 4x4; memcmp of float outputs (sign-of-zero-only differences reported under their own key)',
+    'misc_kmeans / misc_calc_indices':
+        'dim 1 and 2, n of 14 block sizes, k 2..8, bit depth 8/10, pattern alphabet + few-colour textures, centroid sets as the caller computes them, max_itr 50',
+    'misc_frame_error, misc_cross_corr, misc_haar_ac_sad, misc_gradient_hist, misc_search_one_dual, misc_tf_planewise':
+        'see header comments of src/kern_drv_misc_oth.c (sizes and parameters of every call site; all pattern pairs)',
+}
